@@ -130,16 +130,17 @@ def eval_terms(terms: List[dict], x, m, r, eps):
     return tot
 
 
-DOMAIN = {   # data values, model values (inside the loss's domain)
+DOMAIN = {   # data values, model values (inside the loss's domain; 0.0 = the lower bound of the non-negative models, where
+             # only the EPS guard keeps the expressions finite)
     "gaussian": ([-1.5, 0.0, 2.0, 3.25], [-2.0, -0.5, 0.0, 0.7, 3.0]),
-    "bernoulli_odds": ([0.0, 1.0], [1e-3, 0.1, 0.5, 1.0, 2.5, 10.0]),
+    "bernoulli_odds": ([0.0, 1.0], [0.0, 1e-3, 0.1, 0.5, 1.0, 2.5, 10.0]),
     "bernoulli_logit": ([0.0, 1.0], [-300.0, -95.0, -3.0, -0.5, 0.0, 0.7, 2.0, 40.0, 95.0, 300.0]),
-    "poisson": ([0.0, 1.0, 2.0, 7.0], [1e-3, 0.1, 0.5, 1.0, 2.5, 10.0]),
+    "poisson": ([0.0, 1.0, 2.0, 7.0], [0.0, 1e-3, 0.1, 0.5, 1.0, 2.5, 10.0]),
     "poisson_log": ([0.0, 1.0, 2.0, 7.0], [-300.0, -3.0, -0.5, 0.0, 0.7, 2.0, 95.0]),
-    "rayleigh": ([0.25, 1.0, 2.5], [1e-2, 0.1, 0.5, 1.0, 2.5, 10.0]),
-    "gamma": ([0.25, 1.0, 2.5], [1e-2, 0.1, 0.5, 1.0, 2.5, 10.0]),
-    "negative_binomial": ([0.0, 1.0, 2.0, 7.0], [1e-3, 0.1, 0.5, 1.0, 2.5, 10.0]),
-    "beta": ([0.25, 1.0, 2.5], [1e-2, 0.1, 0.5, 1.0, 2.5, 10.0]),
+    "rayleigh": ([0.25, 1.0, 2.5], [0.0, 1e-2, 0.1, 0.5, 1.0, 2.5, 10.0]),
+    "gamma": ([0.25, 1.0, 2.5], [0.0, 1e-2, 0.1, 0.5, 1.0, 2.5, 10.0]),
+    "negative_binomial": ([0.0, 1.0, 2.0, 7.0], [0.0, 1e-3, 0.1, 0.5, 1.0, 2.5, 10.0]),
+    "beta": ([0.0, 0.25, 1.0, 2.5], [0.0, 1e-2, 0.1, 0.5, 1.0, 2.5, 10.0]),
 }
 RVALS = [1.0, 3.0, 4.5]
 # integer data values inside each loss's domain whose squares / negatives do not fit 8 bits
